@@ -666,7 +666,7 @@ func evalC15Built(v *engine.Verdict, c *engine.Case, x *C15Case) {
 func genC15(g engine.G) *engine.Case {
 	c := &engine.Case{}
 	var x C15Case
-	switch k := g.Int(0, 9); {
+	switch k := g.Int(0, 10); {
 	case k < 4:
 		x.Mode = "set"
 		names := []string{"a", "B", "cD", "EF", "g1"}
@@ -716,7 +716,7 @@ func genC15(g engine.G) *engine.Case {
 			op.Op = engine.Pick(g, []string{"loadIn", "loadOut", "result", "result", "poke", "poke", "renew"})
 			x.Ops = append(x.Ops, op)
 		}
-	case k < 6:
+	case k < 7:
 		x.Mode = "lifted"
 		n := g.Int(1, 4)
 		for i := 0; i < n; i++ {
